@@ -292,10 +292,12 @@ func (l *Latency) Compute(ts time.Time) {
 	lat := l.compute(ts, nowTime)
 	l.totalDiff += lat / l.scaleFactor
 	l.count++
-	if lat > l.max {
+	// The first sample of a batch sets both extremes: a latency of zero (or a
+	// negative one, from a target whose clock runs ahead) is a sample too.
+	if l.count == 1 || lat > l.max {
 		l.max = lat
 	}
-	if lat < l.min || l.min == 0 {
+	if l.count == 1 || lat < l.min {
 		l.min = lat
 	}
 	if l.start.IsZero() {
